@@ -11,7 +11,7 @@ CONFIG = {
         TRANSLATOR + " (ReadmeGen.v: rows of README.md 'Scalar Types'; EncSwitchGen.v: arms of encodeScalarField and scalarGoFromReflect, add* helpers of encoder.go, DateString verb, time layout, base64 encoding)",
         CORR, HARNESS,
         "section hypothesis float_text_ok: strconv.FormatFloat(v,'g',-1,bits) of a finite float is a JSON number (exercised against strconv on every float of every generated message)",
-        "section hypothesis inner_ok: the inner encoding of an Any payload is compact JSON (it is a recursive Codec.encode, i.e. an instance of the theorem; protobuf wire unmarshalling and the type resolver are outside the model)",
+        "section hypothesis inner_ok: the inner encoding of an Any payload is compact JSON (it is a recursive Codec.encode: C08_inner_encoding_is_compact proves the premise for the encoder run on the payload message of a registered type, nested to any depth; protobuf wire unmarshalling and the type resolver stay abstract)",
         "modelled, not verified: protoreflect Has/Get/Range (CodecTypes presence algebra), j5schema ClientProperties (the environment is dumped from the real reflector for every run), strconv.FormatInt/FormatUint, encoding/base64, time.Unix/Format, fmt %04d/%02d, utf8.DecodeRuneInString — each has its own correspondence stream",
     ],
     "assumptions": [
